@@ -21,7 +21,7 @@ from .common import canary
 INFO = {
   "trusted": ["exact over the reals (T2); the ray direction is non-zero (a = |vec|^2 > 0)"],
   "undecided": [
-    "agreement with mujoco.mj_ray (numeric oracle); capsule, ellipsoid, cylinder, box, mesh, height-field and flex intersections; the nearest-hit reduction of _ray (tile reduction) and the BVH-accelerated path (wp.bvh_* intrinsics)",
+    "agreement with mujoco.mj_ray (numeric oracle); nearest-hit on the capsule's cylinder side; cylinder, box, mesh, height-field and flex intersections; normals of capsule and ellipsoid; the nearest-hit reduction of _ray (tile reduction) and the BVH-accelerated path (wp.bvh_* intrinsics)",
     "the MJ_MINVAL slivers of _ray_quad (discriminant below 1e-15) and of ray_plane (rays almost parallel to the plane)",
   ],
 }
@@ -165,7 +165,7 @@ def g_capsule(tier):
   R.qvars["bound"] = S.results[0][0]
   for n, tag in enumerate("stb"):  # side, top, bottom
     for k in "abc":
-      R.qvars[k + "_" + tag] = Q.calls[n][k]
+      R.qvars[k + "_" + tag] = Q.call_args[n][k]
     R.qvars["r_" + tag], R.qvars["x_" + tag] = Q.results[n]
   y = R.var("y", "float")
   T = lambda text: zb(tobool(R.term(text)))
@@ -275,5 +275,148 @@ def g_capsule(tier):
   return obs
 
 
+def g_ellipsoid(tier):
+  """(L) ray.ray_ellipsoid in the local frame, against the contracts of _ray_map and _ray_quad (both roots):
+  E(t) = sum_i s_i * (lp_i + t*lv_i)^2 - 1 with s_i * size_i^2 = 1. A reported distance is -1 or >= 0; a reported hit lies
+  on the ellipsoid; every point of the ray (y >= 0) on the ellipsoid is a hit and the reported distance is not beyond it."""
+  from wpv.contracts import Obligation
+  from wpv.sym import tobool
+
+  key = "ray:ray_ellipsoid"
+  MINVAL = __import__("wpv.consts", fromlist=["x"]).CONSTS["consts"]["MJ_MINVAL"]
+  Q = quad2_contract()
+  M = FuncContract("ray:_ray_map", ensures=[])
+  R = Run(key, contracts={QUAD: Q, "ray:_ray_map": M}, pre=["size[0] > 0.0", "size[1] > 0.0", "size[2] > 0.0"])
+  obs = []
+  ok = Q.uses == 1 and M.uses == 1
+  obs.append(Result(oid="ray_ellipsoid#structure", status="discharged" if ok else "undecided", kind="contract", func=key, backend="analysis", reason="" if ok else f"calls: _ray_quad {Q.uses}, _ray_map {M.uses}", meta={"function": key, "goal": "the ellipsoid test maps the ray once and solves one quadratic"}))
+  if not ok:
+    return obs
+  R.qvars["lp"], R.qvars["lv"] = M.results[0]
+  for k in "abc":
+    R.qvars[k + "_e"] = Q.call_args[0][k]
+  R.qvars["r_e"], R.qvars["x_e"] = Q.results[0]
+  y = R.var("y", "float")
+  T = lambda text: zb(tobool(R.term(text)))
+  pure = lambda oid, text, goal: Obligation(oid, [], T(text), func=key, kind="lemma", meta={"function": key, "source_hash": R.info.source_hash, "goal": goal + ": " + text[:200], "timeout_ms": 30000})
+  try:
+    R.term("s[0]")
+  except Exception:
+    obs.append(Result(oid="ray_ellipsoid#anchor", status="undecided", kind="contract", func=key, reason="local `s` (inverse squared semi-axes) not found", meta={"function": key}))
+    return obs
+  a3 = "(lv[0]*lv[0] + lv[1]*lv[1] + lv[2]*lv[2])"
+  E = lambda t: "(" + " + ".join(f"s[{i}]*(lp[{i}] + {t}*lv[{i}])*(lp[{i}] + {t}*lv[{i}])" for i in range(3)) + " - 1.0)"
+  poly = lambda t: f"(a_e*{t}*{t} + 2.0*b_e*{t} + c_e)"
+  real = f"(a_e > 0.0 and b_e*b_e - a_e*c_e >= {MINVAL})"
+  obs.append(canary(R, "ray_ellipsoid#canary", hints=[["lp[0] == -3.0", "lp[1] == 0.0", "lp[2] == 0.0", "lv[0] == 1.0", "lv[1] == 0.0", "lv[2] == 0.0", "size[0] == 1.0", "size[1] == 1.0", "size[2] == 1.0"]]))
+  obs += R.side_obligations("ray_ellipsoid#")
+  inv = [f"s[{i}]*size[{i}]*size[{i}] == 1.0" for i in range(3)]
+  for i in range(3):
+    obs.append(R.obligation(f"ray_ellipsoid#inverse_squared_axis.{i}", inv[i], meta={"goal": "s_i is 1 / size_i^2", "timeout_ms": 30000}))
+  ident = f"{E('y')} == {poly('y')}"
+  obs.append(pure("ray_ellipsoid#identity", ident, "the quadratic the code solves is the ellipsoid equation along the ray"))
+  lead = "a_e == " + " + ".join(f"s[{i}]*lv[{i}]*lv[{i}]" for i in range(3))
+  obs.append(pure("ray_ellipsoid#identity.leading_coefficient", lead, "leading coefficient"))
+  # a_e > 0 for a non-zero direction: each s_i > 0 (from s_i * size_i^2 = 1), squares are non-negative, one is positive
+  S = z3.Reals("S0 S1 S2")
+  Z = z3.Reals("Z0 Z1 Z2")
+  V = z3.Reals("V0 V1 V2")
+  pos_lem = z3.Implies(z3.And(*[z3.And(S[i] * Z[i] * Z[i] == 1, Z[i] > 0) for i in range(3)], z3.Or(*[V[i] != 0 for i in range(3)])), S[0] * V[0] * V[0] + S[1] * V[1] * V[1] + S[2] * V[2] * V[2] > 0)
+  obs.append(Obligation("ray_ellipsoid#lemma.positive_leading_coefficient", [], pos_lem, func=key, kind="lemma", meta={"function": key, "goal": "s_i z_i^2 = 1, z_i > 0, v != 0 -> sum s_i v_i^2 > 0", "timeout_ms": 30000}))
+  sub = [(S[i], R.term(f"s[{i}]")) for i in range(3)] + [(Z[i], R.term(f"size[{i}]")) for i in range(3)] + [(V[i], R.term(f"lv[{i}]")) for i in range(3)]
+  pre = f"{a3} > 0.0"
+  apos = f"implies({pre}, a_e > 0.0)"
+  obs.append(R.obligation("ray_ellipsoid#leading_coefficient_positive", apos, extra_assume=[T(t) for t in inv] + [T(lead), z3.substitute(pos_lem, *sub), T(f"implies({a3} > 0.0, lv[0] != 0.0 or lv[1] != 0.0 or lv[2] != 0.0)")], meta={"goal": "for a non-zero direction the quadratic is genuinely quadratic", "timeout_ms": 30000}))
+  obs.append(pure("ray_ellipsoid#lemma.nonzero_direction", f"implies({a3} > 0.0, lv[0] != 0.0 or lv[1] != 0.0 or lv[2] != 0.0)", "a vector with positive squared length has a non-zero component"))
+  obs.append(R.obligation("ray_ellipsoid#distance_is_the_quad_result", "result[0] == r_e", meta={"goal": "the reported distance is the root selected by _ray_quad"}))
+  obs.append(R.obligation("ray_ellipsoid#miss_is_minus_one", "result[0] == -1.0 or result[0] >= 0.0", meta={"goal": "a miss is reported as -1"}))
+  root_r = f"implies({pre} and r_e >= 0.0, {poly('r_e')} == 0.0)"
+  obs.append(R.obligation("ray_ellipsoid#hit.selected_root_solves_the_quadratic", root_r, extra_assume=[T(apos)], meta={"goal": "the selected root solves the quadratic", "timeout_ms": 30000}))
+  id_r = f"{E('r_e')} == {poly('r_e')}"
+  obs.append(pure("ray_ellipsoid#identity.at_selected_root", id_r, "the identity at the selected root"))
+  obs.append(Obligation("ray_ellipsoid#hit_on_surface", [T("result[0] == r_e"), T(root_r), T(id_r)], T(f"implies({pre} and result[0] >= 0.0, {E('result[0]')} == 0.0)"), func=key, kind="post", meta={"function": key, "source_hash": R.info.source_hash, "goal": "a reported hit lies on the ellipsoid", "timeout_ms": 30000}))
+  # nearest
+  A, B, C, U, W_, Y = z3.Reals("A B C U V Y")
+  lem = z3.Implies(z3.And(A > 0, A * (U + W_) == -2 * B, A * U * W_ == C, A * Y * Y + 2 * B * Y + C == 0), z3.Or(Y == U, Y == W_))
+  obs.append(Obligation("ray_ellipsoid#lemma.root_is_one_of_two", [], lem, func=key, kind="lemma", meta={"function": key, "goal": "a > 0, a(u+v) = -2b, a u v = c, a y^2 + 2 b y + c = 0  ->  y = u or y = v", "timeout_ms": 30000}))
+  inst = z3.substitute(lem, (A, R.term("a_e")), (B, R.term("b_e")), (C, R.term("c_e")), (U, R.term("x_e[0]")), (W_, R.term("x_e[1]")), (Y, R.term("y")))
+  hyp = f"{pre} and y >= 0.0 and {E('y')} == 0.0 and b_e*b_e - a_e*c_e >= {MINVAL}"
+  is_root = f"implies({hyp}, y == x_e[0] or y == x_e[1])"
+  obs.append(R.obligation("ray_ellipsoid#nearest.point_is_a_root", is_root, extra_assume=[T(ident), T(apos), inst], meta={"goal": "a point of the ray on the ellipsoid is one of the two roots", "timeout_ms": 60000}))
+  obs.append(R.obligation("ray_ellipsoid#nearest", f"implies({hyp}, result[0] >= 0.0 and result[0] <= y)", extra_assume=[T(is_root), T(apos), T("result[0] == r_e")], meta={"goal": "every point of the ray (y >= 0) on the ellipsoid is a hit and the reported distance is not beyond it", "timeout_ms": 30000}))
+  return obs
+
+
+def g_cylinder(tier):
+  """(Y) ray.ray_cylinder in the local frame, against the contracts of _ray_map, ray_sphere (sign convention) and
+  _ray_quad: a reported hit lies on a flat face within the radius or on the round side between the faces; every point of
+  the ray (y >= 0) on a flat face within the radius is a hit not nearer than the reported distance."""
+  from wpv.contracts import Obligation
+  from wpv.sym import tobool
+
+  key = "ray:ray_cylinder"
+  MINVAL = __import__("wpv.consts", fromlist=["x"]).CONSTS["consts"]["MJ_MINVAL"]
+  Q = quad2_contract()
+  M = FuncContract("ray:_ray_map", ensures=[])
+  S = FuncContract("ray:ray_sphere", ensures=["result[0] == -1.0 or result[0] >= 0.0"])
+  R = Run(key, contracts={QUAD: Q, "ray:_ray_map": M, "ray:ray_sphere": S}, pre=["size[0] > 0.0", "size[1] >= 0.0"])
+  obs = []
+  ok = Q.uses == 1 and M.uses == 1 and S.uses == 1
+  obs.append(Result(oid="ray_cylinder#structure", status="discharged" if ok else "undecided", kind="contract", func=key, backend="analysis", reason="" if ok else f"calls: _ray_quad {Q.uses}, _ray_map {M.uses}, ray_sphere {S.uses}", meta={"function": key, "goal": "one ray map, one bounding-sphere test, one quadratic (round side)"}))
+  if not ok:
+    return obs
+  R.qvars["lp"], R.qvars["lv"] = M.results[0]
+  R.qvars["bound"] = S.results[0][0]
+  for k in "abc":
+    R.qvars[k + "_s"] = Q.call_args[0][k]
+  R.qvars["r_s"], R.qvars["x_s"] = Q.results[0]
+  y = R.var("y", "float")
+  T = lambda text: zb(tobool(R.term(text)))
+  pure = lambda oid, text, goal: Obligation(oid, [], T(text), func=key, kind="lemma", meta={"function": key, "source_hash": R.info.source_hash, "goal": goal + ": " + text[:200], "timeout_ms": 30000})
+  pt = lambda t: [f"(lp[{i}] + {t}*lv[{i}])" for i in range(3)]
+  rad = lambda t: f"({pt(t)[0]}*{pt(t)[0]} + {pt(t)[1]}*{pt(t)[1]})"
+  pre = "bound >= 0.0"
+  obs.append(canary(R, "ray_cylinder#canary", hints=[["lp[0] == 0.0", "lp[1] == 0.0", "lp[2] == -5.0", "lv[0] == 0.0", "lv[1] == 0.0", "lv[2] == 1.0", "size[0] == 1.0", "size[1] == 1.0", "bound == 1.0"]]))
+  obs += R.side_obligations("ray_cylinder#")
+  obs.append(R.obligation("ray_cylinder#miss_is_minus_one", "result[0] == -1.0 or result[0] >= 0.0", meta={"goal": "a miss is reported as -1"}))
+  X = "result[0]"
+  flat = lambda t, sgn: f"({pt(t)[2]} == {sgn}size[1] and {rad(t)} <= size[0]*size[0])"
+  side = lambda t: f"({rad(t)} == size[0]*size[0] and abs({pt(t)[2]}) <= size[1])"
+  # soundness, by candidates: the two face solutions and the selected side root
+  # the two face solutions, evaluated ONCE (each evaluation of a division introduces its own quotient symbol)
+  R.qvars["f_t"] = R.term("(size[1] - lp[2])/lv[2]")
+  R.qvars["f_b"] = R.term("(-size[1] - lp[2])/lv[2]")
+  ft, fb = "f_t", "f_b"
+  cands = [f"(abs(lv[2]) > {MINVAL} and {X} == {t} and {t} >= 0.0 and {rad(t)} <= size[0]*size[0])" for t in (ft, fb)] + [f"({X} == r_s and r_s >= 0.0 and abs({pt('r_s')[2]}) <= size[1])"]
+  s1 = f"implies({pre} and {X} >= 0.0, " + " or ".join(cands) + ")"
+  obs.append(R.obligation("ray_cylinder#hit.is_an_accepted_candidate", s1, meta={"goal": "a reported distance is a face solution within the radius or the side root between the faces", "timeout_ms": 60000}))
+  on_face = [f"implies(abs(lv[2]) > {MINVAL}, lp[2] + {t}*lv[2] == {sgn}size[1])" for t, sgn in ((ft, ""), (fb, "-"))]
+  for n, t in enumerate(on_face):
+    obs.append(R.obligation(f"ray_cylinder#hit.face_solution_on_face.{n}", t, meta={"goal": "the face solution puts the point on the face plane", "timeout_ms": 30000}))
+  poly = lambda t: f"(a_s*{t}*{t} + 2.0*b_s*{t} + c_s)"
+  root = f"implies(r_s >= 0.0, {poly('r_s')} == 0.0)"
+  obs.append(R.obligation("ray_cylinder#hit.side_root_solves_the_quadratic", f"implies({pre}, {root})", extra_assume=[T("implies(lv[0]*lv[0] + lv[1]*lv[1] == 0.0, lv[0] == 0.0 and lv[1] == 0.0)")], meta={"goal": "the side root solves its quadratic", "timeout_ms": 30000}))
+  obs.append(pure("ray_cylinder#lemma.sum_of_squares_zero", "implies(lv[0]*lv[0] + lv[1]*lv[1] == 0.0, lv[0] == 0.0 and lv[1] == 0.0)", "a ray parallel to the axis has no side quadratic"))
+  idr = f"{rad('r_s')} - size[0]*size[0] == {poly('r_s')}"
+  obs.append(pure("ray_cylinder#identity.side", idr, "the side quadratic is the round surface along the ray"))
+  surf = f"{flat(X, '')} or {flat(X, '-')} or {side(X)}"
+  per = []
+  for n, (t, sgn) in enumerate(((ft, ""), (fb, "-"))):
+    st = f"implies(abs(lv[2]) > {MINVAL} and {t} >= 0.0 and {rad(t)} <= size[0]*size[0], {flat(t, sgn)})"
+    obs.append(Obligation(f"ray_cylinder#hit.candidate_on_surface.{n}", [T(on_face[n])], T(st), func=key, kind="post", meta={"function": key, "source_hash": R.info.source_hash, "goal": "an accepted face solution lies on its face within the radius", "timeout_ms": 30000}))
+    per.append(T(st))
+  st = f"implies({pre} and r_s >= 0.0 and abs({pt('r_s')[2]}) <= size[1], {side('r_s')})"
+  obs.append(Obligation("ray_cylinder#hit.candidate_on_surface.2", [T(f"implies({pre}, {root})"), T(idr)], T(st), func=key, kind="post", meta={"function": key, "source_hash": R.info.source_hash, "goal": "an accepted side root lies on the round side between the faces", "timeout_ms": 30000}))
+  per.append(T(st))
+  obs.append(Obligation("ray_cylinder#hit_on_surface", [T(s1)] + per, T(f"implies({pre} and {X} >= 0.0, {surf})"), func=key, kind="post", meta={"function": key, "source_hash": R.info.source_hash, "goal": "a reported hit lies on a flat face within the radius or on the round side between the faces", "timeout_ms": 60000, "raw_first": True}))
+  # completeness for the faces
+  for nm, sgn, t in (("top", "", ft), ("bottom", "-", fb)):
+    hyp = f"{pre} and abs(lv[2]) > {MINVAL} and y >= 0.0 and {flat('y', sgn)}"
+    same = f"implies({hyp}, y == {t})"
+    obs.append(R.obligation(f"ray_cylinder#{nm}_face.point_is_the_face_solution", same, meta={"goal": f"a point of the ray on the {nm} face plane is at the face solution", "timeout_ms": 30000}))
+    obs.append(R.obligation(f"ray_cylinder#{nm}_face.nearest", f"implies({hyp}, {X} >= 0.0 and {X} <= y)", extra_assume=[T(same)], meta={"goal": f"every point of the ray (y >= 0) on the {nm} face within the radius is a hit, and the reported distance is not beyond it", "timeout_ms": 60000}))
+  return obs
+
+
 def groups(tier):
-  return [("eliminate", g_eliminate), ("quad", g_quad), ("quad2", g_quad2), ("sphere", g_sphere), ("plane", g_plane), ("map", g_map), ("capsule", g_capsule)]
+  return [("cylinder", g_cylinder), ("ellipsoid", g_ellipsoid), ("eliminate", g_eliminate), ("quad", g_quad), ("quad2", g_quad2), ("sphere", g_sphere), ("plane", g_plane), ("map", g_map), ("capsule", g_capsule)]
